@@ -96,6 +96,17 @@ func (p *program) indexPackage(sp *ssa.Package) {
 			if !ok {
 				continue
 			}
+			if nt.TypeParams() != nil && nt.TypeParams().Len() > 0 {
+				// generic type: index the (uninstantiated) method bodies
+				for i := 0; i < nt.NumMethods(); i++ {
+					fn := p.prog.FuncValue(nt.Method(i))
+					if fn == nil || fn.Signature.Recv() == nil {
+						continue
+					}
+					add(fn, pn+"."+recvString(fn.Signature.Recv().Type())+"."+fn.Name())
+				}
+				continue
+			}
 			for _, ptr := range []bool{false, true} {
 				var recv types.Type = nt
 				if ptr {
